@@ -8,7 +8,7 @@ export CARGO_TARGET_DIR=/tmp/confirm-target
 OUT=/tmp/seed-out/$ID/confirm.log
 : > $OUT
 git -C /repo worktree remove --force $WT 2>/dev/null
-git -C /repo worktree add --detach $WT HEAD -q || exit 2
+git -C /repo worktree add --detach $WT ${SEED_BASE:-HEAD} -q || exit 2
 cd $WT
 args=("$@")
 run_demos() {
